@@ -1221,6 +1221,55 @@ class BatchNormLayer(OpDef):
         return o
 
 
+@reg
+class FlattenLayer(OpDef):
+    """nn.Flatten(start_dim=1, end_dim=-1): the layer form, with its own defaults (the batch dimension is kept)"""
+    name = "flatten_layer"
+    props = ("C02", "C06", "C10", "C11")
+
+    def configs(self, tier):
+        out = []
+        for s in ([(2, 3), (2, 3, 2)] if tier == "quick" else [(2, 3), (2, 3, 2), (2, 1, 2, 2)]):
+            r = len(s)
+            out.append({"a": L(s), "start": None, "end": None})          # the defaults
+            for a in range(-r, r):
+                for b in range(-r, r):
+                    if norm_dim(a, r) <= norm_dim(b, r) and (tier != "quick" or (a + b) % 2 == 0):
+                        out.append({"a": L(s), "start": a, "end": b})
+            out.append({"a": L(s), "start": 0, "end": None})             # only one of the two given
+        return out
+
+    def illegal_configs(self, tier):
+        return [{"a": [2, 3, 2], "start": 2, "end": 0}, {"a": [2, 3], "start": 0, "end": 2}]
+
+    def inputs(self, args):
+        return [Inp("a", args["a"])]
+
+    def forward(self, args, ts, extra):
+        kw = {}
+        if args["start"] is not None:
+            kw["start_dim"] = args["start"]
+        if args["end"] is not None:
+            kw["end_dim"] = args["end"]
+        m = NN().Flatten(**kw)
+        extra["module"] = m
+        return m(ts[0])
+
+    def reference(self, args, xs, extra):
+        x = xs[0]
+        r = x.ndim
+        a = 1 if args["start"] is None else norm_dim(args["start"], r)
+        b = r - 1 if args["end"] is None else norm_dim(args["end"], r)
+        if a > b:
+            raise ValueError("start after end")
+        osh = x.shape[:a] + (int(np.prod(x.shape[a:b + 1], dtype=int)),) + x.shape[b + 1:]
+        o = objarr(osh)
+        flat = [x[idx] for idx in np.ndindex(*x.shape)]
+        for k, idx in enumerate(np.ndindex(*osh)):
+            o[idx] = flat[k]
+        return o
+
+
 # ------------------------------------------------------------------------------------------ dropout
 @reg
 class Dropout(OpDef):
